@@ -23,6 +23,7 @@ packages that are not plain atoms.
 """
 import os
 import random
+import re
 
 from . import schema as S
 
@@ -333,6 +334,229 @@ def sweep_schema(ident, position):
     if position == 'messageHeader':
         sch['headerType'] = ident
     return sch
+
+
+# ------------------------------------------------------------------ (a'') adversarial names
+
+def adversarial_bases():
+    """schemas in which every naming decision of names_generator.hpp is taken both ways: public types, types defined
+    inside composites, messages and groups that must be mangled (a member named like the entity, a member named
+    like the group's entry class, an inline type met twice) next to ones that keep their names"""
+    dim = 'groupSizeEncoding'
+    types_a = std_headers() + [
+        {'k': 'enum', 'name': 'Side', 'enc': 'uint8', 'values': [{'name': 'Side', 'value': '1'}, {'name': 'Buy', 'value': '2'}]},
+        {'k': 'composite', 'name': 'Px', 'elems': [{'k': 'type', 'name': 'Px', 'prim': 'uint8'},
+                                                   {'k': 'type', 'name': 'mant', 'prim': 'int32'}]},
+        {'k': 'composite', 'name': 'Qx', 'elems': [{'k': 'type', 'name': 'mant', 'prim': 'uint8'},
+                                                   {'k': 'composite', 'name': 'in', 'elems': [
+                                                       {'k': 'type', 'name': 'deep', 'prim': 'uint16'}]}]},
+    ]
+    msgs_a = [
+        {'name': 'Ord', 'id': 1, 'fields': [{'name': 'Ord', 'id': 1, 'type': 'uint8'}, {'name': 'side', 'id': 2, 'type': 'Side'}],
+         'groups': [
+             {'name': 'legs', 'id': 10, 'dim': dim, 'fields': [{'name': 'legs', 'id': 11, 'type': 'uint8'}],
+              'groups': [{'name': 'sub', 'id': 12, 'dim': dim, 'fields': [{'name': 'x', 'id': 13, 'type': 'uint8'}],
+                          'groups': [], 'datas': []}], 'datas': []},
+             {'name': 'fills', 'id': 14, 'dim': dim, 'fields': [{'name': 'fills_entry', 'id': 15, 'type': 'uint16'}],
+              'groups': [], 'datas': []}],
+         'datas': []},
+        {'name': 'Quote', 'id': 2, 'fields': [{'name': 'q', 'id': 1, 'type': 'uint8'}, {'name': 'qx', 'id': 2, 'type': 'Qx'}],
+         'groups': [{'name': 'lvl', 'id': 10, 'dim': dim, 'fields': [{'name': 'p', 'id': 11, 'type': 'Px'}],
+                     'groups': [], 'datas': []}],
+         'datas': []}]
+    a = {'package': 'ns', 'id': 1, 'version': 0, 'byteOrder': 'littleEndian', 'types': types_a, 'messages': msgs_a}
+    # a second, smaller family: the group that must be mangled is nested, its nested group is mangled as well
+    msgs_b = [
+        {'name': 'Top', 'id': 1, 'fields': [{'name': 'a', 'id': 1, 'type': 'uint8'}],
+         'groups': [{'name': 'outer', 'id': 10, 'dim': dim, 'fields': [{'name': 'o', 'id': 11, 'type': 'uint8'}],
+                     'groups': [{'name': 'legs', 'id': 12, 'dim': dim, 'fields': [{'name': 'legs', 'id': 13, 'type': 'uint8'}],
+                                 'groups': [{'name': 'inner', 'id': 14, 'dim': dim,
+                                             'fields': [{'name': 'inner_entry', 'id': 15, 'type': 'uint8'}], 'groups': [],
+                                             'datas': []}],
+                                 'datas': []}],
+                     'datas': []}],
+         'datas': []},
+        {'name': 'Other', 'id': 2, 'fields': [{'name': 'b', 'id': 1, 'type': 'uint8'}], 'groups': [], 'datas': []}]
+    b = {'package': 'ns', 'id': 1, 'version': 0, 'byteOrder': 'littleEndian', 'types': std_headers(), 'messages': msgs_b}
+    # the tag containers `S::schema::types` / `S::schema::messages` are renamed when a type / message has that name
+    c = {'package': 'ns', 'id': 1, 'version': 0, 'byteOrder': 'littleEndian',
+         'types': std_headers() + [{'k': 'type', 'name': 'types', 'prim': 'uint8'}],
+         'messages': [{'name': 'messages', 'id': 1, 'fields': [{'name': 't', 'id': 1, 'type': 'types'}], 'groups': [],
+                       'datas': []}]}
+    return [('A', a), ('B', b), ('C', c)]
+
+
+def parse_chosen(field):
+    """`names=` of the model's answer -> [{'kind': T|I|M|G, 'name', 'impl', 'entry'}]"""
+    out = []
+    for x in (field or '').split(','):
+        f = x.split(':')
+        if len(f) >= 3:
+            out.append({'kind': f[0], 'name': f[1], 'impl': f[2], 'entry': f[3] if len(f) > 3 else ''})
+    return out
+
+
+def next_counter(name):
+    m = re.match(r'^(.*)_(\d+)$', name)
+    if m:
+        return '%s_%d' % (m.group(1), int(m.group(2)) + 1)
+    return None
+
+
+def adversarial_candidates(chosen):
+    """{'types': [(name, hot)], 'messages': [(name, hot)]}: the class names the generator chose, their `_entry`
+    forms, the next counter values and the `_0` forms; `hot` = literally a class name chosen for a mangled entity,
+    a group or an entry class"""
+    out = {'types': {}, 'messages': {}}
+
+    def add(dom, n, hot):
+        if n and re.match(r'^[A-Za-z_]\w*$', n):
+            out[dom][n] = out[dom].get(n, False) or hot
+    for c in chosen:
+        dom = 'types' if c['kind'] in 'TI' or (c['kind'] == 'C' and c['name'] == 'types') else 'messages'
+        mangled = c['impl'] != c['name']
+        if c['kind'] == 'C':
+            if mangled:
+                out[dom][c['impl']] = 'container'
+                add(dom, next_counter(c['impl']), False)
+            continue
+        names = [c['impl']] + ([c['entry']] if c['entry'] else [])
+        for n in names:
+            add(dom, n, mangled or c['kind'] == 'G')
+            add(dom, n + '_entry', False)
+            add(dom, n + '_0', False)
+            add(dom, n + '_0_entry', False)
+            add(dom, next_counter(n), False)
+        add(dom, c['name'] + '_0', False)
+        add(dom, c['name'] + '_1', False)
+        add(dom, c['name'] + '_0_entry', False)
+        add(dom, c['name'] + '_entry_0', False)
+        if c['kind'] == 'G' and mangled:
+            nx = next_counter(c['impl'])
+            add(dom, nx + '_entry' if nx else None, False)
+    return {d: sorted(v.items()) for d, v in out.items()}
+
+
+ADV_TYPE_POSITIONS = ['inline', 'type', 'enum', 'set', 'composite', 'inline-composite']
+ADV_MESSAGE_POSITIONS = ['group-same', 'group-other', 'message', 'group-nested', 'group-deep']
+
+
+def adversarial_schema(base, name, position, order):
+    """`base` plus one entity called `name` at `position`, declared before / after the entities of the base;
+    None when the name is taken at that level"""
+    import copy
+    s = copy.deepcopy(base)
+    dim = 'groupSizeEncoding'
+
+    def put(lst, x):
+        if order == 'before':
+            lst.insert(0, x)
+        else:
+            lst.append(x)
+
+    def level_names(lvl):
+        return {x['name'] for k in ('fields', 'groups', 'datas') for x in lvl.get(k, [])}
+    if position in ADV_TYPE_POSITIONS:
+        public = {t['name'].lower() for t in s['types']}
+        if position in ('type', 'enum', 'set', 'composite'):
+            if name.lower() in public:
+                return None
+            t = {'type': {'k': 'type', 'name': name, 'prim': 'uint16'},
+                 'enum': {'k': 'enum', 'name': name, 'enc': 'uint8', 'values': [{'name': 'adv_v', 'value': '1'}]},
+                 'set': {'k': 'set', 'name': name, 'enc': 'uint8', 'choices': [{'name': 'adv_c', 'index': 0}]},
+                 'composite': {'k': 'composite', 'name': name, 'elems': [{'k': 'type', 'name': 'adv_e', 'prim': 'uint8'}]},
+                 }[position]
+        else:
+            if 'adv_holder' in public or name == 'adv_e':
+                return None
+            el = {'k': 'type', 'name': name, 'prim': 'uint16'} if position == 'inline' else \
+                {'k': 'composite', 'name': name, 'elems': [{'k': 'type', 'name': 'adv_e', 'prim': 'uint8'}]}
+            t = {'k': 'composite', 'name': 'adv_holder', 'elems': [el]}
+        put(s['types'], t)
+        # use it, so that a message header includes it
+        s['messages'][-1]['fields'].append({'name': 'adv_f', 'id': 77, 'type': t['name']})
+        return s
+    g = {'name': name, 'id': 90, 'dim': dim, 'fields': [{'name': 'adv_f', 'id': 91, 'type': 'uint8'}], 'groups': [],
+         'datas': []}
+    if position == 'message':
+        if name in {m['name'] for m in s['messages']}:
+            return None
+        put(s['messages'], {'name': name, 'id': 90, 'fields': [{'name': 'adv_f', 'id': 1, 'type': 'uint8'}],
+                            'groups': [], 'datas': []})
+        return s
+    first, last = s['messages'][0], s['messages'][-1]
+    if position == 'group-same':
+        lvl = first
+    elif position == 'group-other':
+        lvl = last
+    elif position == 'group-nested':
+        if not first['groups']:
+            return None
+        lvl = first['groups'][0]
+    else:
+        # below the innermost last group of the last message that has groups
+        host = last if last['groups'] else first
+        if not host['groups']:
+            return None
+        lvl = host['groups'][-1]
+        while lvl['groups']:
+            lvl = lvl['groups'][-1]
+    if name in level_names(lvl) or name == 'adv_f':
+        return None
+    put(lvl['groups'], g)
+    return s
+
+
+def adversarial_schemas(bases_with_chosen, rng, budget, thorough):
+    """([(schema, feature key)], counts).  Priority 0: a class name chosen for a group, an entry class or a mangled
+    entity, given to a later group of the same / another message (mangled names also to an earlier sibling
+    group), resp. to a type defined inside another composite; priority 1: those names at every position in both
+    orders; priority 2: `_entry` / counter / `_0` forms and cross-namespace uses.  quick: priority 0 of every base; thorough: priorities 0 and 1; both filled up to
+    `budget` with a sample of the rest.  (`schema->types` is an unordered map: the order of types is not the
+    generator's order, so `before` says nothing new for types.)"""
+    prio = {0: [], 1: [], 2: []}
+    for bi, (label, base, chosen) in enumerate(bases_with_chosen):
+        cands = adversarial_candidates(chosen)
+        for dom, positions, other in (('types', ADV_TYPE_POSITIONS, ADV_MESSAGE_POSITIONS),
+                                      ('messages', ADV_MESSAGE_POSITIONS, ADV_TYPE_POSITIONS)):
+            for name, is_hot in cands[dom]:
+                if bi > 0 and dom == 'types' and is_hot != 'container':
+                    continue        # the later bases have the standard composites only
+                for order in ('after', 'before'):
+                    for pi, pos in enumerate(positions):
+                        sch = adversarial_schema(base, name, pos, order)
+                        if sch is None:
+                            continue
+                        key = 'adv.%s.%s.%s' % (label, pos, order)
+                        counter = bool(re.search(r'_\d+(_entry)?$', name))
+                        if not is_hot:
+                            p = 2
+                        elif is_hot == 'container':
+                            p = 0 if order == 'after' and pos in ('type', 'message') else 2
+                        elif bi > 0:
+                            p = 0 if (dom == 'messages' and order == 'after' and pi == 1 and counter) else 1
+                        elif dom == 'messages' and order == 'after' and pi < 2:
+                            p = 0
+                        elif dom == 'messages' and order == 'before' and pi == 0 and counter:
+                            p = 0
+                        elif dom == 'types' and order == 'after' and pi == 0:
+                            p = 0
+                        else:
+                            p = 1
+                        prio[p].append((sch, key))
+                    if is_hot:
+                        # an entity of the other namespace family named like it (must be harmless)
+                        sch = adversarial_schema(base, name, other[0], order)
+                        if sch is not None:
+                            prio[2].append((sch, 'adv.%s.cross.%s' % (label, order)))
+    out = list(prio[0])
+    rest = prio[2]
+    if thorough:
+        out += prio[1]
+    else:
+        rest = prio[1] + prio[2]
+    out += rng.sample(rest, min(max(0, budget - len(out)), len(rest)))
+    return out, {'adv.priority0': len(prio[0]), 'adv.priority1': len(prio[1]), 'adv.pool': len(prio[2])}
 
 
 # ------------------------------------------------------------------ (b) literal boundary stream
